@@ -16,14 +16,19 @@ LEAN_TARGETS = ["Asynkit.Props.C05", "Asynkit.Lemmas.GenEqC05"]
 PROPS_FILES = ["Asynkit/Props/C05.lean", "Asynkit/Lemmas/GenEqC05.lean"]
 DRIVERS = ["Proto"]
 TRUSTED = [
-    "translator/wrappers2lean.py regenerates Asynkit/Gen/Wrappers.lean from coroutine.py on every run (coro_iter, coro_await, awaitmethod, awaitmethod_iter, await_sync, syncfunction, aiter_sync; statement by statement, generators/coroutines segment by segment); Lemmas/GenEqC05.lean proves each generated segment equal to the model's transition; trusted there: the meaning of the method calls (Model/WrapRt.lean)",
-    "Lean 4.33 kernel; axioms ⊆ {propext, Classical.choice, Quot.sound} (audited per theorem each run)",
-    "hand-written model Asynkit/Model/Wrappers.lean (awaitSync, aiterSync, CoroStart.throw/close/done/result), tied to "
-    "coroutine.py:545-603 by this run's differential correspondence (lean/Drivers/Proto.lean `sync`/`aiter` lines)",
-    "MODELLED, NOT VERIFIED: CPython coroutine-object envelope, PEP 380/479, asyncio.Future.__await__ setting "
-    "`_asyncio_future_blocking` before yielding and refusing a second awaiter while it is set",
-    "CoroStart as repaired by the fix proposed under C01 (`_start` clears a captured future's blocking flag, "
-    "`__await__` sets it again): the flag functions of Model/Wrappers.lean describe that code",
+    'translated, not trusted: await_sync, syncfunction and aiter_sync are re-translated from coroutine.py on '
+    "every run (translator/wrappers2lean.py -> Gen/Wrappers.lean) and proved equal to the model's awaitSync / "
+    'aiterSync (Lemmas/GenEqC05.lean, 7 theorems); CoroStart.throw/close/done/result, which they call, by the C01'
+    ' unit (GenEqC01/GenEqC01W, audited by the C01 check)',
+    'Lean 4.33 kernel; axioms ⊆ {propext, Classical.choice, Quot.sound} (audited per theorem each run)',
+    'hand-written: the runtime vocabulary Model/WrapRt.lean (meaning of x.send/throw/close, CoroStart(...) as the'
+    " model's CS transformer, async iterators as one Body per __anext__) and Model/Proto.lean; the whole is "
+    "additionally run against the code by this run's differential correspondence (lean/Drivers/Proto.lean "
+    '`sync`/`aiter` lines)',
+    'MODELLED, NOT VERIFIED: CPython coroutine-object envelope, PEP 380/479, asyncio.Future.__await__ setting '
+    '`_asyncio_future_blocking` before yielding and refusing a second awaiter while it is set',
+    'the blocking-flag functions of Model/Wrappers.lean describe CoroStart as it is after fixes 59f4f3e / 7bda94b'
+    " (_start clears a captured future's flag, __await__ and throw() re-arm / clear it)",
 ]
 ASSUMPTIONS = [
     "domain of the property: the body does not swallow SynchronousAbort/GeneratorExit and then suspend again "
